@@ -15,6 +15,7 @@ func main() {
 	probe.Init()
 	for _, cs := range probe.Plan() {
 		custom, sc := cs.Custom, cs.Sc
+		probe.SetCase(cs)
 		for _, which := range []string{"global", "routing"} {
 			k := "go-zero/global_middleware.go:SentinelMiddleware.func1.func1"
 			if which == "routing" {
